@@ -745,5 +745,8 @@ def replay(ctx, payload):
     c = payload.get("case", payload)
     case = c["case"] if isinstance(c, dict) and "case" in c else c
     check_cases(ctx, [case], stream="replay")
-    return {"fails": bool(ctx.failures or ctx.corr_disagreements), "failures": ctx.failures,
+    known = fw.known_findings(ctx.pid)
+    new = [f for f in ctx.failures if f["key"] not in known]
+    return {"fails": bool(new or ctx.corr_disagreements), "failures": new,
+            "known_findings": sorted({f["key"] for f in ctx.failures if f["key"] in known}),
             "disagreements": ctx.corr_disagreements}
